@@ -207,10 +207,13 @@ pub fn run(tier: &str, seed: u64) -> i32 {
         recipe documents x a switch set. Oracles: Rule::from_str(text) and Rule::from_value(parsed text) both load \
         and agree on every document; serde_yaml::to_string of the rule (as loaded, and after optimise) parses to the \
         same detection block (condition, identifiers) and the same examples, loads again, gives the verdict of the \
-        original rule on every document, and a second round trip is a fixed point. Non-trivial: the rule holds a \
+        original rule on every document, and a second round trip is a fixed point. A second stream puts YAML-typed plain \
+        scalars (1, 1.5, true, ~, null, .inf and their quoted spellings) where the format wants strings - identifier \
+        names, the condition - and null / non-sequence values where it wants example lists: text and value must \
+        agree on whether the rule loads. Non-trivial: the rule holds a \
         quoting-sensitive scalar; distinct by rule text."
         .into();
-    report.assumptions = vec!["identifier names are YAML strings (a numeric YAML key is accepted from text but not from a value; outside the property's domain)".into()];
+    report.assumptions = vec![];
     let findings = load_findings();
     replay_findings(&mut report, &findings, &judge);
     let n = if tier == "thorough" { 300_000 } else { 10_000 };
@@ -300,6 +303,70 @@ pub fn run(tier: &str, seed: u64) -> i32 {
         },
         judge,
         |_, _| {},
+    );
+    // plain scalars that YAML types (`1`, `1.5`, `true`, `~`) where the rule format wants strings:
+    // identifier names, the condition, and the example lists. Text and value have to agree on
+    // whether such a rule loads at all; quoted spellings are ordinary strings and must round-trip.
+    let typed = ["1", "1.5", "true", "false", "~", "null", "-3", "0x1F", ".inf", "'1'", "\"true\"", "'~'", "'1.5'"];
+    gen::drive(
+        &mut report,
+        81,
+        n / 4,
+        || {
+            (
+                gen::rule(gen::RuleOpts::default()),
+                prop::collection::vec(gen::doc_recipe(), 4),
+                0u8..4,
+                any::<u16>(),
+                any::<bool>(),
+            )
+        },
+        move |(rule, recipes, variant, pick, second): &(RuleSpec, Vec<gen::DocRecipe>, u8, u16, bool)| {
+            if !rule.well_formed() {
+                return vec![];
+            }
+            let name = typed[(*pick as usize * typed.len()) >> 16];
+            let mut text = engine::rule_text(&rule.detection_yaml(), &[], &[]);
+            match variant {
+                // an extra identifier the condition does not use
+                0 => text = text.replacen("detection:\n", &format!("detection:\n  {name}:\n    f1: a\n"), 1),
+                // an identifier of that name which the condition does use
+                1 => {
+                    let word = name.trim_matches(|c| c == '\'' || c == '"');
+                    if !word.chars().all(|c| c.is_ascii_alphabetic()) {
+                        return vec![];
+                    }
+                    text = text
+                        .replacen("detection:\n", &format!("detection:\n  {name}:\n    f1: a\n"), 1)
+                        .replacen("  condition: ", &format!("  condition: {word} or "), 1);
+                    if *second {
+                        // the whole condition is that one plain scalar
+                        let start = text.find("  condition: ").unwrap_or(0);
+                        let end = text[start..].find('\n').map(|i| start + i).unwrap_or(text.len());
+                        text.replace_range(start..end, &format!("  condition: {word}"));
+                    }
+                }
+                // example lists that are null / absent values instead of sequences
+                2 => {
+                    let what = if *second { "true_positives: []" } else { "true_negatives: []" };
+                    let with = what.replace("[]", if *pick % 2 == 0 { "~" } else { "" });
+                    text = text.replacen(what, with.trim_end(), 1);
+                }
+                _ => {
+                    let what = if *second { "true_positives: []" } else { "true_negatives: []" };
+                    let with = what.replace("[]", ["{}", "''", "0", "[~]"][(*pick % 4) as usize]);
+                    text = text.replacen(what, &with, 1);
+                }
+            }
+            let mut c = Case::new("c14.roundtrip");
+            c.rules = vec![text];
+            c.docs = recipes.iter().map(|x| gen::build_doc(rule, x)).collect();
+            c.switches = Some(15);
+            c.extra = serde_json::json!({"sensitive": true, "typed_scalar_variant": variant});
+            vec![c]
+        },
+        judge,
+        |(_, _, variant, _, _), rep| rep.label(&format!("typed_scalar_variant_{variant}")),
     );
     report.finish()
 }
